@@ -482,3 +482,75 @@ Proof. intros k H. destruct k; try discriminate. exists 0, S, 0, 1. simpl. discr
 
 Definition history_sensitive_sites : list (string * string * string) :=
   map (fun s => (s_file s, s_fn s, s_expr s)) (filter (fun s => history_sensitive (s_sink s)) site_table).
+
+(* ------------------------------------------------------------------ the target directory as the generator meets it *)
+(* a fresh run (target absent) produces exactly what a run over an EMPTY directory produces *)
+Theorem generate_absent_eq_empty p : generate_into true p TAbsent = generate_into true p (TDir []).
+Proof. reflexivity. Qed.
+
+(* whatever the first run met, running again over its result changes nothing (unique file names) *)
+Theorem generate_twice b1 b2 p t t1 : NoDup (map fst p) ->
+  generate_into b1 p t = GenOk t1 -> generate_into b2 p t1 = GenOk t1.
+Proof.
+  intros N H. destruct t as [| |fs]; simpl in H.
+  - destruct b1; [|discriminate]. inversion H; subst. simpl. rewrite regenerate_idempotent; auto.
+  - destruct p; [|discriminate]. inversion H; subst. reflexivity.
+  - inversion H; subst. simpl. rewrite regenerate_idempotent; auto.
+Qed.
+
+(* the files of the package do not depend on what the run met: absent, empty, or any previous content *)
+Theorem generate_files_independent_of_target b1 b2 p t1 t2 fs1 fs2 m :
+  generate_into b1 p t1 = GenOk (TDir fs1) -> generate_into b2 p t2 = GenOk (TDir fs2) ->
+  In m (map fst p) -> fs_lookup m fs1 = fs_lookup m fs2.
+Proof.
+  intros H1 H2 Hm.
+  assert (E : forall b t fs, generate_into b p t = GenOk (TDir fs) -> exists fs0, fs = write_all p fs0).
+  { intros b t fs H. destruct t as [| |f0]; simpl in H.
+    - destruct b; [|discriminate]. inversion H. eauto.
+    - destruct p; discriminate.
+    - inversion H. eauto. }
+  destruct (E _ _ _ H1) as [a ->]. destruct (E _ _ _ H2) as [c ->].
+  apply regenerate_independent_of_previous. exact Hm.
+Qed.
+
+(* the only failures: the parent directory is missing, or the target is a file *)
+Theorem generate_fails_iff b p t e : p <> [] ->
+  generate_into b p t = GenErr e <-> (t = TAbsent /\ b = false /\ e = "FileNotFoundError"%string) \/
+                                      (t = TFile /\ e = "NotADirectoryError"%string).
+Proof.
+  intro Hp. destruct t as [| |fs]; simpl.
+  - destruct b; split; intro H.
+    + discriminate.
+    + destruct H as [[_ [H _]]|[H _]]; discriminate.
+    + inversion H. left. auto.
+    + destruct H as [[_ [_ ->]]|[H _]]; [reflexivity | discriminate].
+  - destruct p; [contradiction|]. split; intro H.
+    + inversion H. right. auto.
+    + destruct H as [[H _]|[_ ->]]; [discriminate | reflexivity].
+  - split; intro H; [discriminate|]. destruct H as [[H _]|[H _]]; discriminate.
+Qed.
+
+(* over the table: no site learns anything about the CONTENT a previous generation left *)
+Lemma site_table_target_free : forallb (fun s => negb (target_sensitive (s_sink s))) site_table = true.
+Proof. vm_compute. reflexivity. Qed.
+
+Theorem emission_target_independent : forall s, In s site_table ->
+  forall fs1 fs2, observe_target (s_sink s) (TDir fs1) = observe_target (s_sink s) (TDir fs2).
+Proof.
+  intros s Hin fs1 fs2.
+  pose proof site_table_target_free as H. rewrite forallb_forall in H. specialize (H s Hin).
+  destruct (s_sink s); try reflexivity. discriminate.
+Qed.
+
+Theorem read_target_is_target_sensitive : forall k, target_sensitive k = true ->
+  exists fs1 fs2, observe_target k (TDir fs1) <> observe_target k (TDir fs2).
+Proof.
+  intros k H. destruct k; try discriminate.
+  exists [], [("__init__.py"%string, ""%string)]. simpl. discriminate.
+Qed.
+
+Definition target_sensitive_sites : list (string * string * string) :=
+  map (fun s => (s_file s, s_fn s, s_expr s)) (filter (fun s => target_sensitive (s_sink s)) site_table).
+Definition target_exists_sites : list (string * string * string) :=
+  map (fun s => (s_file s, s_fn s, s_expr s))
+      (filter (fun s => match s_sink s with SkTargetExists => true | _ => false end) site_table).
